@@ -209,5 +209,5 @@ def search(seed, tier, hints):
 
 def replay(payload):
     common.say("replay input:", {k: v for k, v in payload.get("input", {}).items() if k not in ("ecc", "idx")})
-    common.say("re-run the check with the recorded seed to reproduce")
-    return 0
+    common.say("re-running the check with the recorded seed and tier")
+    return common.replay_by_rerun("C15", payload)
